@@ -557,6 +557,8 @@ impl IoLoop {
         // the TLS handshake and true otherwise; in the non-TLS case, this should be true
         // if we've sent the protocol header and false otherwise. I think this is related to
         // https://github.com/tokio-rs/mio/issues/648.
+        #[cfg(amiquip_verif)]
+        crate::verif::pass_log::enter(self.inner.outbuf.len(), have_written_to_socket);
         if self.inner.has_data_to_write() && have_written_to_socket {
             trace!("reregistering socket for readable or writable");
             self.poll
@@ -584,6 +586,15 @@ impl IoLoop {
                 }
                 continue;
             }
+            #[cfg(amiquip_verif)]
+            crate::verif::pass_log::pass(
+                &events,
+                self.inner.outbuf.len(),
+                have_written_to_socket,
+                listening_to_channels,
+                self.buffered_writes_high_water,
+                self.buffered_writes_low_water,
+            );
 
             let had_data_to_write = self.inner.has_data_to_write();
 
